@@ -22,6 +22,13 @@ from ..core.program import AnalysisError, Program, enclosing_stmt, norm, short, 
 from ..report import Result
 
 
+def _adds(fn: ast.AST, nm: str) -> List[ast.AST]:
+    """The sites that add to list `nm`: nm.append(x), nm.extend(xs), nm += xs."""
+    out: List[ast.AST] = [c for c in astq.method_calls(fn, "append") + astq.method_calls(fn, "extend") if isinstance(c.func.value, ast.Name) and c.func.value.id == nm]
+    out += [st for st in walk_function(fn) if isinstance(st, ast.AugAssign) and isinstance(st.op, ast.Add) and isinstance(st.target, ast.Name) and st.target.id == nm]
+    return out
+
+
 def _returned_lists(fn: ast.AST):
     """(names filled by append/extend inside a loop, names built by a comprehension) among the names the return value is made of."""
     rets = [n for n in walk_function(fn) if isinstance(n, ast.Return) and n.value is not None]
@@ -30,8 +37,7 @@ def _returned_lists(fn: ast.AST):
         names |= astq.names_in(r.value) | astq.names_in(astq.expand(fn, r.value))
     looped, comps = [], []
     for nm in sorted(names):
-        apps = [c for c in astq.method_calls(fn, "append") if isinstance(c.func.value, ast.Name) and c.func.value.id == nm] + \
-               [c for c in astq.method_calls(fn, "extend") if isinstance(c.func.value, ast.Name) and c.func.value.id == nm]
+        apps = _adds(fn, nm)
         if apps and any(astq.enclosing_loops(c) for c in apps):
             looped.append(nm)
         else:
@@ -44,7 +50,7 @@ def check_per_sample_lists(prog: Program, res: Result, rule: str, quals: Iterabl
     for q in quals:
         fi = prog.func(q)
         res.touch(fi)
-        fn = fi.node
+        fn = astq.unroll_literal_loops(fi.node)   # `for lst, v in zip((a, b, c), values): lst.append(v)` is three appends
         lists, comps = _returned_lists(fn)
         res.ob(rule, bool(lists) or bool(comps), fi.qualname, "returns per-sample lists", f"{fi.name} no longer collects its per-sample results in returned lists", fi.where)
         for b in comps:   # a comprehension yields one entry per element unless it filters
@@ -56,7 +62,7 @@ def check_per_sample_lists(prog: Program, res: Result, rule: str, quals: Iterabl
         cfg = CFG(fn)
         loops = set()
         for nm in lists:
-            apps = [c for c in astq.method_calls(fn, "append") + astq.method_calls(fn, "extend") if isinstance(c.func.value, ast.Name) and c.func.value.id == nm]
+            apps = _adds(fn, nm)
             outer = {id(astq.enclosing_loops(c)[-1]): astq.enclosing_loops(c)[-1] for c in apps if astq.enclosing_loops(c)}
             ok1 = len(outer) == 1 and len(apps) >= 1
             res.ob(rule, ok1, fi.qualname, f"`{nm}` is filled in one per-sample loop", f"`{nm}` is appended to in {len(outer)} loops / outside the loop", fi.where)
@@ -75,7 +81,7 @@ def check_per_sample_lists(prog: Program, res: Result, rule: str, quals: Iterabl
                    "batch and every later sample is paired with its neighbour's frame", f"{fi.module.relpath}:{lp.lineno}", sample={"list": nm})
             twice = any(cfg.reachable_from(list(cfg.g.successors(p)), avoid=heads) & an for p in an)
             res.ob(rule, not twice, fi.qualname, f"`{nm}` appended at most once per iteration", f"`{nm}` can be appended twice in one iteration of the per-sample loop", f"{fi.module.relpath}:{lp.lineno}")
-            inits = [s for s in astq.assignments_to(fn, nm)]
+            inits = [s for s in astq.assignments_to(fn, nm) if not isinstance(s, ast.AugAssign)]
             ok_init = len(inits) == 1 and isinstance(getattr(inits[0], "value", None), ast.List) and not inits[0].value.elts and not astq.enclosing_loops(inits[0])
             res.ob(rule, ok_init, fi.qualname, f"`{nm}` starts empty, outside the loop", f"`{nm}` is not initialised to an empty list exactly once before the per-sample loop", fi.where)
         params = set(fi.params)
